@@ -2,7 +2,61 @@
 import os
 import core
 
-EXTRACTORS = ["ral_governance", "go_payloads"]
+EXTRACTORS = ["ral_governance", "go_payloads", "go_admin"]
+
+HDR = ("From Coq Require Import Uint63.\nFrom Coq Require Import List ZArith Bool Arith Strings.Byte.\n"
+       "From WH Require Import lib.Bytes lib.Wire gen.Extracted gen.ExtractedGov model.Vaa model.AlphConv model.Governance model.GovernanceRun.\n"
+       "Import ListNotations.\nOpen Scope Z_scope.\n")
+
+KINDS = {"guardian_set": 0, "message_fee": 1, "transfer_fee": 2, "contract_upgrade": 3, "register_chain": 4, "bridge_upgrade": 5, "destroy": 6,
+         "min_level": 7, "refund": 8, "unset": 9}
+ERRS = {"target_chain": 1, "gs_empty": 2, "gs_too_many": 3, "gs_pubkey": 4, "gs_dup": 5, "fee_len": 6, "fee_hex": 7, "amount_len": 8, "recipient_len": 9,
+        "amount_hex": 10, "recipient_hex": 11, "payload_hex": 12, "chain_id": 13, "emitter_hex": 14, "emitter_len": 15, "refund_hex": 16, "module_len": 17,
+        "emitter_chain": 18, "too_many_seqs": 19, "level": 20, "refund_len": 21, "unset": 22}
+OUT = {"ok": 0, "err": 1, "panic": 2}
+
+
+def B(h):
+    return "(B %s)" % core.gbytes(h or "")
+
+
+def gstr(s):
+    """a vS of the harness: literal when nothing is generated"""
+    if s is None:
+        return "[]"
+    if s.get("n", 0) == 0 and not s.get("suf"):
+        return B(s.get("pre", ""))
+    return "(vs %s %d %d %d %s %s)" % (B(s.get("pre", "")), s["n"], s.get("a", 0), s.get("b", 0), core.gbool(s.get("up", False)), B(s.get("suf", "")))
+
+
+def gmsg(m):
+    q = m.get("seqs")
+    seqs = "[]"
+    if q:
+        seqs = "(vseqs %s %d %s %s)" % (core.glist(core.gz(x) for x in (q.get("l") or [])), q.get("n", 0), core.gz(q.get("a", 0)), core.gz(q.get("b", 0)))
+    return "(CM %d %d %s %d %s %s %s %d %s)" % (KINDS[m["kind"]], m["nonce"], core.gz(m["seq"]), m["tchain"], core.glist(gstr(k) for k in (m.get("keys") or [])),
+                                              gstr(m.get("s1")), gstr(m.get("s2")), m.get("x", 0), seqs)
+
+
+def gcase(r):
+    sent = core.glist("(%d, %d)" % (core.hash_bytes(s["marshal"]), s["plen"]) for s in r["sent"])
+    head = "%d %s %d %d" % (r["gchain"], B(r["gaddr"]), r["ts"], r["gsi"])
+    err = ERRS.get(r.get("err", ""), 0 if r["out"] == "ok" else 99)
+    if r["via"] == "direct":
+        return "CDirect %s %s %d %d %s" % (head, gmsg(r["msgs"][0]), OUT[r["out"]], err, sent)
+    return "CInject %s %s %d %d %s" % (head, core.glist(gmsg(m) for m in r["msgs"]), OUT[r["out"]], err, sent)
+
+
+def weight(r):
+    w = 30
+    for m in r["msgs"]:
+        for s in [m.get("s1"), m.get("s2")] + (m.get("keys") or []):
+            if s:
+                w += 3 * s.get("n", 0) + len(s.get("pre", "")) // 2 + 5
+        q = m.get("seqs")
+        if q:
+            w += 12 * (q.get("n", 0) + len(q.get("l") or []))
+    return w
 
 
 def request_of(r):
@@ -35,7 +89,7 @@ def monitors(ctx, rows, limit=14):
 
 def run(ctx):
     core.run_extract(ctx, EXTRACTORS)
-    core.coq_prove(ctx, "C15")
+    core.coq_prove(ctx, "C15", extra_targets=["model/GovernanceRun.vo"])
     if ctx.tier == "thorough":
         core.coq_thorough_audit(ctx, "C15")
     rc, out, trace = core.harness_pkg(ctx, "guardiand", "^TestVerifC15$",
@@ -44,5 +98,44 @@ def run(ctx):
     if rc != 0 or not rows:
         ctx.problem("correspondence", "go harness C15", out[-1500:])
         return
+    for r in rows:
+        r["msgs"] = r.get("msgs") or []
+        r["sent"] = r.get("sent") or []
     monitors(ctx, rows)
     ctx.evaluations = len(rows)
+    ctx.distinct = len({(r["via"], r["gchain"], r["ts"], r["gsi"], str(r["msgs"])) for r in rows
+                        if not (r["out"] == "err" and r.get("err") == "target_chain")})
+    ctx.rule = ("the nine conversion functions called directly and through InjectGovernanceVAA (drained injectC) under recover(): chain ids 0..2^32-1 around 65535/65536, "
+                "consistency levels around 255/256, 0..65537 sequences, module names of 0/11/31/32/33/64 bytes, hex fields of 62/64/66 digits, odd length, invalid digits, "
+                "0x prefix, upper case, 0..257 guardians, duplicate / zero / malformed keys in every spelling, refund addresses of 0..65537 bytes, unset payload oneof, "
+                "target chains beyond 65535, several messages per request, other governance emitters, seeded random requests of every kind; distinct by request, "
+                "non-trivial = not rejected by the bare target-chain test")
+    hist = {}
+    for r in rows:
+        for m in r["msgs"]:
+            k = "%s:%s:%s" % (r["via"], m["kind"], r["out"] + ("/" + r["err"] if r.get("err") else ""))
+            hist[k] = hist.get(k, 0) + 1
+    ctx.cov["kind_outcome_hist"] = hist
+    ctx.cov["vaas_produced"] = sum(len(r["sent"]) for r in rows)
+    ctx.cov["max_payload_bytes"] = max([s["plen"] for r in rows for s in r["sent"]] or [0])
+    ctx.samples = [dict(request_of(r), outcome=r["out"], error=r.get("err", "")) for r in rows[:2]]
+    # model vs implementation on every request, inside Coq: outcome, error kind, Marshal checksum and payload length of every produced VAA
+    bad = core.run_cases(ctx, "cases_C15", rows, HDR, "case", gcase, "", weight=weight)
+    if bad is None:
+        return
+    for i in bad[:5]:
+        r = rows[i]
+        rp = request_of(r)
+        rp.update({"go_outcome": r["out"], "go_error": r.get("errtext", r.get("err", "")),
+                   "go_produced": [{k2: v for k2, v in s.items() if k2 != "marshal" and not (k2 == "payload" and len(v) > 400)} for s in r["sent"]][:3]})
+        ctx.problem("correspondence", "model differs from the implementation (%s, %s)" % (r["via"], r["tag"]),
+                    "go: %s %s, %d VAAs" % (r["out"], r.get("err", ""), len(r["sent"])), concrete=False, replay=rp)
+    ctx.cov["traces_validated_against_impl"] = len(rows)
+    ctx.cov["mismatches"] = len(bad)
+    ctx.assumptions = ["the Ralph parsers are translated statement by statement (assert!, let, assignments, if/return, byteVecSlice!, u256From<N>Byte!, size!, U256 arithmetic with "
+                       "overflow abort); statements that do not parse the payload (migrate!, transferTokenFromSelf!, subContractId!, isAssetAddress!, blake2b! state check) are left "
+                       "out and listed in the extractor info; byteVecToAddress! is the identity on the bytes",
+                       "the envelope values the contract sees (emitter chain / address, sequence, target chain, payload) are those of the VAA (C04: parseAndVerifyVAA reads the fields Go writes)",
+                       "request fields are protobuf-typed (uint32 / uint64 / string): numbers are non-negative",
+                       "guardian-set upgrade is stated for current_set_index + 1 < 2^32 (the index is a 4-byte wire field)",
+                       "encoding/hex, go-ethereum IsHexAddress / HexToAddress are hand-modelled and tied by the differential run"]
